@@ -12,12 +12,12 @@ ASSUME = ["model: offered = pending items none of whose registered dependencies 
 
 # the same lock-step monitor interpreted by Miri
 MIRI = {"quick": ["--items", "2", "--rounds", "3", "--maxstates", "120", "--random", "16"],
-        "thorough": ["--items", "3", "--rounds", "6", "--maxstates", "40000", "--random", "3000"], "shards": 6, "shard_by_seed": True}
+        "thorough": ["--items", "2", "--rounds", "6", "--maxstates", "20000", "--random", "400"], "shards": 6, "shard_by_seed": True}
 
 
 def run(tier, seed):
     # the breadth-first frontier of the 4-item space is capped so that the probe stays well inside its address-space limit
-    extra = ["--maxstates", "800000"] if tier == "thorough" else []
+    extra = ["--maxstates", "200000"] if tier == "thorough" else []
     return run_probe_check("C26", tier, seed, RULE, ASSUME, extra=extra, min_evals=100000, miri=MIRI)
 
 
